@@ -412,7 +412,8 @@ def evaluate(sess, call):
     try:
         v = do_library_call(sess, call)
     except Exception as e:   # noqa: BLE001 - every exception is an outcome here
-        return ['exc', type(e).__name__], 2 + phase_of(e, call), e
+        # (type, message and the source position the exception carries: all part of what the caller sees)
+        return ['exc', type(e).__name__, str(e)[:200], getattr(e, 'line', None), getattr(e, 'col', None)], 2 + phase_of(e, call), e
     return canon(v), (1 if v is None else 0), None
 
 
@@ -910,6 +911,7 @@ def run(ctx):
                        'non-trivial = contains at least one fault or leftover-producing call'
                        '; the tables include %d generated sheet texts, media queries and value/declaration/sheet fragments each'
                        % (len(INPUTS), len(FAULTY), len(QUERIES), len(CONSTRUCTS), len(EDITS), len(COMBINES), len(battery(0)), ngen))
+    tokenizer_macros_family(ctx)
     histories = []
     # directed histories first: every single fault / construction followed by the battery, in both modes
     singles = ([('mparse', i) for i in NO_FETCH] + [('query', i) for i in range(N_STATIC['queries'])]
@@ -1021,6 +1023,42 @@ def results_only_inprocess(steps, mode0):
     impl.reset(bool(mode0))
     impl.fresh_profiles()
     return results_only([tuple(s) for s in steps], mode0)
+
+
+def tokenizer_macros_family(ctx):
+    """Tokenizer objects built with their own macro tables (the documented macros= / productions= arguments): what a
+    tokenizer returns depends on ITS tables, not on which other tokenizers were built before.  Search only."""
+    import copy
+    import itertools
+    from cssutils import tokenize2, cssproductions
+    std = dict(cssproductions.MACROS)
+    dollar = dict(std)
+    dollar['nmstart'] = std['nmstart'].replace('[_a-z', '[_a-z$', 1) if '[_a-z' in std['nmstart'] else '[$]|' + std['nmstart']
+    wide = dict(std)
+    wide['nmchar'] = std['nmchar'].replace('[_a-z', '[_a-z!', 1) if '[_a-z' in std['nmchar'] else '[!]|' + std['nmchar']
+    tables = {'standard': std, 'dollar': dollar, 'bang': wide}
+    text = '$main a!b c'
+
+    def toks(name):
+        t = tokenize2.Tokenizer(macros=copy.deepcopy(tables[name]), productions=cssproductions.PRODUCTIONS)
+        return [(a, b) for a, b, _, _ in t.tokenize(text)]
+    alone = {}
+    for order in itertools.permutations(tables):
+        seen = {}
+        for name in order + order:
+            ctx.case(('tokenizer-macros', order, name, len(seen)))
+            try:
+                got = toks(name)
+            except Exception as e:  # noqa
+                ctx.violation('raises', {'family': 'tokenizer-macros', 'order': list(order), 'table': name}, '%s: %s' % (type(e).__name__, e), KNOWN_PRED)
+                continue
+            first = alone.setdefault(name, got)
+            if got != first:
+                ctx.violation('history-dependent-result', {'family': 'tokenizer-macros', 'order': list(order), 'table': name, 'text': text},
+                              'Tokenizer(macros=%s) gave %r, the first tokenizer with these tables gave %r' % (name, got, first), KNOWN_PRED)
+    if len({repr(v) for v in alone.values()}) < 2:
+        ctx.violation('history-dependent-result', {'family': 'tokenizer-macros', 'text': text},
+                      'the three macro tables give the same tokens %r: the tables are not used' % (alone,), KNOWN_PRED)
 
 
 def replay(path):
